@@ -56,11 +56,55 @@ def _shard_seed(seed, subname, shard):
     return (seed * 1000003 + zlib.crc32(subname.encode()) % 100000 * 101 + shard) % (2**63)
 
 
+_WD = {"t": None, "spec": None, "sub": None, "started": False}
+
+
+def _start_watchdog():
+    """A case that runs longer than VERIF_CASE_TIMEOUT seconds (default 150) is a hang: save the spec, dump the
+    stack and kill this worker; the parent reports a harness error (never a verdict)."""
+    if _WD["started"]:
+        return
+    _WD["started"] = True
+    import faulthandler
+    import threading
+
+    limit = float(os.environ.get("VERIF_CASE_TIMEOUT", "150"))
+
+    def watch():
+        while True:
+            time.sleep(2.0)
+            t = _WD["t"]
+            if t is not None and time.time() - t > limit:
+                try:
+                    os.makedirs(os.path.join(HERE, "out"), exist_ok=True)
+                    with open(os.path.join(HERE, "out", f"hang-{_WD['sub']}-{os.getpid()}.json"), "w") as fh:
+                        fh.write(canon({"sub": _WD["sub"], "spec": _WD["spec"]}))
+                    sys.stderr.write(f"WATCHDOG: case of {_WD['sub']} exceeded {limit}s; spec saved under out/hang-*\n")
+                    faulthandler.dump_traceback(all_threads=True)
+                finally:
+                    os._exit(70)
+
+    threading.Thread(target=watch, daemon=True).start()
+
+
+def _run_case(sub, spec, ctx):
+    _WD["t"], _WD["spec"], _WD["sub"] = time.time(), spec, sub.name
+    if os.environ.get("VERIF_TRACE_CASES"):
+        os.makedirs(os.path.join(HERE, "out"), exist_ok=True)
+        with open(os.path.join(HERE, "out", f"current-{os.getpid()}.json"), "w") as fh:
+            fh.write(canon({"sub": sub.name, "spec": spec}))
+    try:
+        sub.check(spec, ctx)
+    finally:
+        _WD["t"] = None
+
+
 def run_shard(task):
     """Executed in a worker process.  Returns a plain dict."""
     modname, subname, shard, nshards, n, seed, tier, preds_ids = task
     t0 = time.time()
     out = {"sub": subname, "shard": shard, "failure": None, "harness_error": None}
+    _start_watchdog()
     try:
         mod = importlib.import_module(modname)
         sub = get_sub(mod, subname)
@@ -75,7 +119,7 @@ def run_shard(task):
                 if i % nshards != shard:
                     continue
                 try:
-                    sub.check(spec, ctx)
+                    _run_case(sub, spec, ctx)
                 except Violation as v:
                     if v.spec is None:
                         v.spec = spec
@@ -103,7 +147,7 @@ def run_shard(task):
             @given(sub.strategy())
             def prop_test(spec):
                 try:
-                    sub.check(spec, ctx)
+                    _run_case(sub, spec, ctx)
                 except Violation as v:
                     if v.spec is None:
                         v.spec = spec
@@ -322,9 +366,21 @@ def main(argv=None):
         if args.procs <= 1:
             results = [run_shard(t) for t in tasks]
         else:
+            from concurrent.futures import ProcessPoolExecutor, as_completed
+            from concurrent.futures.process import BrokenProcessPool
+
             ctxm = mp.get_context("fork")
-            with ctxm.Pool(args.procs, maxtasksperchild=None) as pool:
-                results = list(pool.imap_unordered(run_shard, tasks, chunksize=1))
+            ex = ProcessPoolExecutor(max_workers=args.procs, mp_context=ctxm)
+            futs = {ex.submit(run_shard, t): t for t in tasks}
+            try:
+                for fut in as_completed(futs):
+                    try:
+                        results.append(fut.result())
+                    except BrokenProcessPool:
+                        t = futs[fut]
+                        harness_errors.append(f"worker died while running {t[1]} shard {t[2]} (hang watchdog or crash; see out/hang-*.json)")
+            finally:
+                ex.shutdown(wait=False, cancel_futures=True)
     results.sort(key=lambda r: (r["sub"], r["shard"]))
 
     per_sub = {}
